@@ -239,7 +239,7 @@ def sim_replay(exe, path, variant=""):
 
 def load_known_findings():
     known, fixed = [], []
-    p = os.path.join(VERIF, "known_findings.txt")
+    p = os.environ.get("VERIF_KNOWN_FINDINGS", os.path.join(VERIF, "known_findings.txt"))  # override: self-test only
     if os.path.exists(p):
         for line in open(p):
             line = line.strip()
@@ -510,7 +510,7 @@ def main():
     # ---------------- verdict
     log("run_check: %d runs, %d steps, %d oracle evaluations for %s, %d states, %.1fs build + %.1fs explore" % (agg.runs, agg.steps, agg.orc.get(prop, 0), prop, len(agg.states), tbuild, trun))
     for k, n in known_hits:
-        log("KNOWN-FINDING: property=%s %s (seen %d times)" % (prop, k["_text"][len("known:"):].strip(), n))
+        log("KNOWN-FINDING: %s (seen %d times)" % (k["_text"][len("known:"):].strip(), n))
     for f in agg.harness_faults:
         log("run_check: HARNESS FAULT: " + f)
         harness_fault = True
